@@ -606,6 +606,26 @@ func rulesMashDeleg(c *Ctx, r *Report) {
 	if nRet == 0 {
 		ok = false
 	}
+	// Distance only reads its sketches: the one call made on them is Jaccard (sorting them "to be safe" writes the
+	// caller's sketches and panics on frozen ones)
+	var otherCalls []string
+	instrs(ds, func(in ssa.Instruction) {
+		cl, isCall := in.(*ssa.Call)
+		if !isCall {
+			return
+		}
+		g := cl.Call.StaticCallee()
+		if g != nil && (g == fj || baseName(g) == "Jaccard" && strings.Contains(funcPkgPath(g), "minhash")) {
+			return
+		}
+		for _, a := range cl.Call.Args {
+			if len(ds.Params) >= 2 && (a == ssa.Value(ds.Params[0]) || a == ssa.Value(ds.Params[1])) {
+				otherCalls = append(otherCalls, callName(cl)+" at "+c.pos(cl.Pos()))
+			}
+		}
+	})
+	r.check(len(otherCalls) == 0, "DELEG", fname(ds), "Distance only reads its sketches", c.pos(ds.Pos()),
+		"the only call Distance makes on its sketches is Jaccard", fmt.Sprintf("Distance hands its sketches to %v: they are modified (or the call panics on a frozen sketch) before the comparison", otherCalls))
 	r.check(ok, "DELEG", fname(ds), "Distance = FromJaccard(Jaccard)", c.pos(ds.Pos()), "every return of Distance is FromJaccard(mh1.Jaccard(mh2), k)", "a return of Distance is not FromJaccard(mh1.Jaccard(mh2), k): "+seen)
 }
 
